@@ -54,6 +54,8 @@ type ProvSpec struct {
 	ForceCN bool
 	// Tmpl, if set, is used verbatim as the configured provisioner (Name must equal Tmpl.Name).
 	Tmpl *provisioner.ACME
+	// Other, if set, is configured as it is (a provisioner of another type next to the ACME ones); not in Env.Provs.
+	Other provisioner.Interface
 }
 
 type Env struct {
@@ -68,7 +70,44 @@ type Env struct {
 	Mux    *chi.Mux
 	Provs  map[string]*provisioner.ACME
 	Root   *x509.Certificate
+	// ServedIP, if set, makes NewOrder/Issue ask for this IP identifier instead of a DNS name (the
+	// environment of package acmeserved: the real validation client can only reach loopback).
+	ServedIP string
+	// Revoked, if set, answers IsRevoked (environments without an in-process authority).
+	Revoked func(serial string) bool
+	// Closer, if set, replaces Close.
+	Closer func()
+	// Legacy is the same API mounted the deprecated way: acme/api.NewHandler(HandlerOptions{DB, CA, DNS, Prefix,
+	// PrerequisitesChecker}).Route — a middleware in front of every route puts the components into the request
+	// context. UseLegacy sends Do/DoCT/DoCtx through it; Prereq is what its prerequisites checker answers:
+	// 0 (true, nil) | 1 (false, nil) | 2 an error.
+	Legacy    http.Handler
+	UseLegacy bool
+	Prereq    int
 }
+
+// IsRevoked asks the authority's database whether the serial number is revoked.
+func (e *Env) IsRevoked(serial string) bool {
+	if e.Revoked != nil {
+		return e.Revoked(serial)
+	}
+	rv, _ := e.Auth.IsRevoked(serial)
+	return rv
+}
+
+func NewFakeClient() *FakeClient { return &FakeClient{m: map[string]string{}} }
+
+// Lookup returns what was registered for the path.
+func (c *FakeClient) Lookup(path string) (string, bool) {
+	c.mu.Lock()
+	defer c.mu.Unlock()
+	b, ok := c.m[path]
+	return b, ok
+}
+
+// TmpBase and MkCA for sibling environments (package acmeserved).
+func TmpBase() string                                                        { return tmpBase() }
+func MkCA() (root, inter *x509.Certificate, signer crypto.Signer, err error) { return mkCA() }
 
 // FakeClient answers the http-01 fetch with whatever was registered for the token path.
 type FakeClient struct {
@@ -176,6 +215,10 @@ func newEnv(provs []ProvSpec, wrap func(acme.DB) acme.DB, migrate bool) (*Env, e
 	e.Root = root
 	var plist provisioner.List
 	for _, ps := range provs {
+		if ps.Other != nil {
+			plist = append(plist, ps.Other)
+			continue
+		}
 		p := &provisioner.ACME{Type: "ACME", Name: ps.Name, ID: ps.ID, RequireEAB: ps.RequireEAB,
 			Challenges: []provisioner.ACMEChallenge{provisioner.HTTP_01, provisioner.DEVICE_ATTEST_01}, ForceCN: ps.ForceCN}
 		if ps.AttestationRoots != nil {
@@ -235,6 +278,20 @@ func newEnv(provs []ProvSpec, wrap func(acme.DB) acme.DB, migrate bool) (*Env, e
 	mux := chi.NewRouter()
 	mux.Route("/acme", func(r chi.Router) { acmeAPI.Route(r) })
 	e.Mux = mux
+	lmux := chi.NewRouter()
+	lmux.Route("/acme", func(r chi.Router) {
+		acmeAPI.NewHandler(acmeAPI.HandlerOptions{DB: e.DB, CA: a, DNS: Host, Prefix: "acme",
+			PrerequisitesChecker: func(context.Context) (bool, error) {
+				switch e.Prereq {
+				case 1:
+					return false, nil
+				case 2:
+					return false, errors.New("prerequisites cannot be checked")
+				}
+				return true, nil
+			}}).Route(r)
+	})
+	e.Legacy = lmux
 	e.Router = http.HandlerFunc(func(w http.ResponseWriter, r *http.Request) {
 		mux.ServeHTTP(w, r.WithContext(mergeCtx(r.Context(), base)))
 	})
@@ -257,6 +314,10 @@ func (m merged) Value(k any) any {
 func mergeCtx(req, base context.Context) context.Context { return merged{req, base} }
 
 func (e *Env) Close() {
+	if e.Closer != nil {
+		e.Closer()
+		return
+	}
 	if e.Auth != nil {
 		e.Auth.Shutdown()
 	}
@@ -294,6 +355,10 @@ func (e *Env) DoCtx(ctx context.Context, method, path, ct string, body []byte) (
 			rec.Code = 599
 		}
 	}()
+	if e.UseLegacy && e.Legacy != nil {
+		e.Legacy.ServeHTTP(rec, req)
+		return rec
+	}
 	e.Router.ServeHTTP(rec, req)
 	return rec
 }
